@@ -9,4 +9,4 @@ def check(run, tier, seed, replay=None):
                    lambda sc, obs: "C01 write or ownership change without permitted adoption, or adoption/refusal not carried out",
                    "exhaustive abstract adoption table (strategy x already-controller x revision relation x collisionProtection x "
                    "controller state x force x pko-label x cache visibility) through the real ReconcilePhase, plus seeded random "
-                   "multi-object phases and teardowns with a third-party op between read and write")
+                   "multi-object phases and teardowns with a third-party op between read and write", faults=True)
